@@ -173,8 +173,8 @@ Definition cli_apply (txfile : bool) (c : cfg) (n : nat) (all : list file) (t : 
       end
   end.
 
-(** A history of `migrate apply` runs; the directory may change between runs. *)
-Record cli_run := mkCliRun { cr_txfile : bool; cr_dir : list file; cr_faults : list bool }.
+(** A history of `migrate apply --allow-dirty [--exec-order o]` runs; the directory may change between runs. *)
+Record cli_run := mkCliRun { cr_txfile : bool; cr_order : order; cr_dir : list file; cr_faults : list bool }.
 
 Fixpoint cli_history (rs : list cli_run) (t : list rev)
   : list (cli_outcome * list rev * list (bytes * bytes)) :=
@@ -182,7 +182,7 @@ Fixpoint cli_history (rs : list cli_run) (t : list rev)
   | [] => []
   | r :: rs' =>
       let '(o, t', _, _, j) :=
-        cli_apply (cr_txfile r) (mkCfg Linear None true true) 0 (cr_dir r) t (cr_faults r) in
+        cli_apply (cr_txfile r) (mkCfg (cr_order r) None true true) 0 (cr_dir r) t (cr_faults r) in
       (o, t', j) :: cli_history rs' t'
   end.
 
